@@ -755,6 +755,11 @@ impl CliOptions for GetOptsOptions {
         for (key, val) in inline_config {
             config.override_value(&key, &val);
         }
+        // `--check` never writes: it wins over an `emit_mode` given through `--config`, as it
+        // already does over `--emit` (which is rejected together with `--check`).
+        if self.check {
+            config.set_cli().emit_mode(EmitMode::Diff);
+        }
     }
 
     fn config_path(&self) -> Option<&Path> {
